@@ -167,11 +167,8 @@ static sg4::ActivityPtr wf_act(const json& a)
 {
   if (a.is_string()) {
     auto it = wf_named().find(a.get<std::string>());
-    if (it == wf_named().end()) {
-      fprintf(stderr, "no activity named %s\n", a.get<std::string>().c_str());
-      fflush(stdout);
-      _exit(64);
-    }
+    if (it == wf_named().end()) // (a loader that did not create what the file describes: reported by the oracle from the wf_load result)
+      throw std::invalid_argument("no activity named " + a.get<std::string>());
     return it->second;
   }
   return handle(a.get<int>()).act;
